@@ -174,6 +174,18 @@ C10OK(rec, s) == C10Ret(rec) /\ C10Trace(rec, s)
 
 C04OK(rec) == rec.pan \/ rec.ret.fails = <<>>
 
+\* C05, error clause: on a tree returned WITH errors every node still has 0 <= Pos <= End <= len, children lie
+\* inside their parent and the children of a node are in source order without overlap (CreateTable exempt).
+\* nodes: Seq(<<pos, end, parent, exempt>>) in reflective pre-order; a node whose Pos()/End() panicked is C04's business.
+C05ErrOK(rec) ==
+  rec.pan \/
+  LET N == rec.ret.nodes n == Len(rec.buf) IN
+  /\ \A i \in 1..Len(N) : N[i][1] = -7 \/ (0 <= N[i][1] /\ N[i][1] <= N[i][2] /\ N[i][2] <= n
+                                            /\ (N[i][3] > 0 /\ N[N[i][3]][1] # -7 => (N[N[i][3]][1] <= N[i][1] /\ N[i][2] <= N[N[i][3]][2])))
+  /\ \A i, j \in 1..Len(N) :
+       (i < j /\ N[i][3] = N[j][3] /\ N[i][3] > 0 /\ N[i][4] = 0 /\ N[i][1] # -7 /\ N[j][1] # -7
+        /\ ~\E m \in (i+1)..(j-1) : N[m][3] = N[i][3]) => N[i][2] <= N[j][1]
+
 Report(i, tag) == CSVWrite("%1$s,%2$s", <<i, tag>>, RejectFile)
 Finish(i, s) ==
   LET rec == Trace[i] IN
@@ -182,6 +194,7 @@ Finish(i, s) ==
   /\ (IF C09Ret(rec) /\ (~s.ok \/ C09Trace(rec, s)) THEN TRUE ELSE Report(i, "C09"))
   /\ (IF C10Ret(rec) /\ (~s.ok \/ C10Trace(rec, s)) THEN TRUE ELSE Report(i, "C10"))
   /\ (IF C04OK(rec) THEN TRUE ELSE Report(i, "C04"))
+  /\ (IF C05ErrOK(rec) THEN TRUE ELSE Report(i, "C05"))
 
 \* Step mode: one TLC state per hook event (the fold Run is kept for documentation and small
 \* experiments; TLC evaluates it two orders of magnitude slower than stepping).
